@@ -708,18 +708,150 @@ def c09(rep, tier):
     F.check(okcc, 'check_constraint: compares text', 'found[0].text != requirement.text -> reject', 'constraint no longer compares token text', W(cc, None, mm.facts))
     c09_detector_grammar(rep, mm)
     G = rep.rule('C09.g', 'a detector scans start positions ascending and returns the first accepted, constraint-satisfying match', floor=1)
+    detect_rule(G, mm)
+
+
+def detect_rule(G, mm):
+    """detect(): one loop over all start positions 0, 1, ... size-1 in ascending order; each position is parsed from there; the
+    first position whose parse is ACCEPTed and whose text constraints hold is returned with that position as location."""
     det = mm.facts.fn('MacroDetector::detect')
-    okg = False
-    for st in walk_stmts(det['body']):
-        if st['k'] == 'for':
-            cv = counter_of(st)
-            i0 = strip_casts(cv['init']) if cv else None
-            asc = cv is not None and i0 is not None and i0.get('v') == 0 and '++' in show(st.get('inc')) and '<' in show(st.get('c')) and 'size' in show(st.get('c'))
-            rets = [x for x in walk_stmts(st['body']) if x['k'] == 'return']
-            ifs = [x for x in walk_stmts(st['body']) if x['k'] == 'if']
-            okg = asc and len(rets) == 1 and len(ifs) == 1 and 'ACCEPT' in show(ifs[0]['c']) and 'check_constraint' in show(ifs[0]['c']) and \
-                ('begin() + %s' % cv['name']) in show([e for e in walk_all_exprs(st['body']) if is_call(e, '::parse')][0])
-    G.check(okg, 'detect: leftmost', 'for (i = 0; i < size; i++) return at the first ACCEPT && constraint', 'detect() no longer returns the leftmost match', W(det, None, mm.facts))
+    g = mm.M.cfg(det)
+    where = W(det, None, mm.facts)
+    inp = det['params'][0] if det['params'] else None
+    loops = [st for st in walk_stmts(det['body']) if st['k'] in ('for', 'while', 'do', 'rangefor') and any(is_call(e, '::parse') for e in walk_all_exprs(st.get('body')))]
+    if len(loops) != 1 or loops[0]['k'] != 'for' or inp is None:
+        G.unknown('detect: leftmost', 'the scan over the start positions is not a single counting loop around the parse call')
+        return
+    L = loops[0]
+    cv = counter_of(L)
+    if cv is None:
+        G.unknown('detect: leftmost', 'loop counter not recognised')
+        return
+    why, unk = [], []
+    i0 = strip_casts(cv.get('init'))
+    if i0 is not None and i0.get('k') == 'int':
+        if i0['v'] != 0:
+            why.append('the scan starts at position %d: a match at an earlier position is never found' % i0['v'])
+    else:
+        unk.append('initial position %s' % show(cv.get('init')))
+
+    def is_size(e, depth=0):
+        e = strip_casts(e)
+        if e is None or depth > 4:
+            return None
+        if e.get('k') == 'paren':
+            return is_size(e['e'], depth)
+        if is_call(e, '::size') and strip_casts(e['obj']).get('d') == inp['d']:
+            return 'size'
+        if e.get('k') == 'ref' and e.get('dk') == 'var':
+            o = mm.M.origin(det, e)
+            return is_size(o, depth + 1) if o is not e else None
+        if e.get('k') == 'bin' and e['op'] == '-' and is_size(e['l'], depth + 1) == 'size' and strip_casts(e['r']).get('k') == 'int' and strip_casts(e['r'])['v'] > 0:
+            return 'short'
+        if e.get('k') == 'call' and (e.get('callee') or '').split('<')[0] in ('std::min',) and any(is_size(a, depth + 1) == 'size' for a in e.get('args', [])):
+            return 'short'
+        if e.get('k') == 'cond' and any(is_size(a, depth + 1) == 'size' for a in (e['t'], e['e'])):
+            return 'short'       # min(size, something): the scan can stop early
+        return None
+    c = strip_casts(L.get('c'))
+    if c is not None and c.get('k') == 'bin' and strip_casts(c['l']).get('d') == cv['d'] and c['op'] in ('<', '!=', '<='):
+        kind = is_size(c['r'])
+        if kind == 'size' and c['op'] in ('<', '!='):
+            pass
+        elif kind == 'short' or (kind == 'size' and False):
+            why.append('the scan stops before the last start positions (%s): a match further right is never found although no match lies to its left' % show(c))
+        else:
+            unk.append('loop bound %s' % show(c))
+    else:
+        unk.append('loop condition %s' % (show(c) if c else None))
+    inc = strip_casts(L.get('inc')) if L.get('inc') else None
+    if inc is not None and inc.get('k') == 'un' and inc['op'] == '++' and strip_casts(inc['e']).get('d') == cv['d']:
+        pass
+    elif inc is not None and inc.get('k') == 'assign' and inc['op'] == '+=' and strip_casts(inc['l']).get('d') == cv['d'] and strip_casts(inc['r']).get('k') == 'int':
+        if strip_casts(inc['r'])['v'] != 1:
+            why.append('the scan advances by %d: start positions are skipped' % strip_casts(inc['r'])['v'])
+    elif inc is not None and inc.get('k') == 'un' and inc['op'] == '--':
+        why.append('the scan runs from right to left: the rightmost match is returned')
+    else:
+        unk.append('loop increment %s' % (show(inc) if inc else None))
+    # the counter is not moved inside the body
+    for e in walk_all_exprs(L['body']):
+        tgt = None
+        if e.get('k') == 'assign':
+            tgt = strip_casts(e['l'])
+        elif e.get('k') == 'un' and e['op'] in ('++', '--'):
+            tgt = strip_casts(e['e'])
+        if tgt is not None and tgt.get('k') == 'ref' and tgt.get('d') == cv['d']:
+            why.append('the position counter is changed inside the loop body (%s): start positions are skipped' % show(e)[:50])
+    # parse from begin() + counter
+    pc = [e for e in walk_all_exprs(L['body']) if is_call(e, '::parse')]
+    from_pos = False
+    for x in walk_expr(pc[0]):
+        if x.get('k') in ('bin', 'call') and x.get('op') == '+':
+            parts = [x['l'], x['r']] if x['k'] == 'bin' else ([x['obj']] if x.get('obj') is not None else []) + list(x['args'])
+            if any(is_call(strip_conv(p_), '::begin') for p_ in parts) and any(strip_casts(p_).get('d') == cv['d'] for p_ in parts):
+                from_pos = True
+    if not from_pos:
+        # begin() + x with x computed from the counter
+        desc = False
+        for x in walk_expr(pc[0]):
+            if x.get('k') in ('bin', 'call') and x.get('op') == '+':
+                parts = [x['l'], x['r']] if x['k'] == 'bin' else ([x['obj']] if x.get('obj') is not None else []) + list(x['args'])
+                if any(is_call(strip_conv(p_), '::begin') for p_ in parts):
+                    for p_ in parts:
+                        o = mm.M.origin(det, p_)
+                        for y in walk_expr(o) if o is not None else []:
+                            if y.get('k') == 'bin' and y['op'] == '-' and any(z.get('k') == 'ref' and z.get('d') == cv['d'] for z in walk_expr(y['r'])):
+                                desc = True
+        if desc:
+            why.append('the start position decreases as the loop counter grows: the scan runs from right to left and the rightmost match is returned')
+        else:
+            unk.append('start of the parsed range %s' % show(pc[0])[:70])
+    # returns inside the loop
+    rets = [n for n in g.returns() if any(x is n.stmt for x in walk_stmts(L['body']))]
+    hits = [n for n in rets if n.stmt.get('e') is not None and 'nullopt' not in show(n.stmt['e'])]
+    if len(hits) != 1:
+        unk.append('%d returns of a match inside the loop' % len(hits))
+    else:
+        n = hits[0]
+        ev = n.events[0] if n.events else None
+        guards = g.guards_of(ev) if ev is not None else []
+
+        def is_accept(c2):
+            return c2.get('k') in ('bin', 'call') and c2.get('op') == '==' and 'ACCEPT' in show(c2)
+
+        def is_constraint(c2):
+            return c2.get('k') == 'call' and (c2.get('callee') or '').endswith('check_constraint')
+        acc = any(isinstance(l, bool) and guard_implies(c2, l, is_accept, True) for c2, l, cn in guards) or \
+            any(isinstance(l, bool) and guard_implies(c2, l, lambda z: z.get('k') in ('bin', 'call') and z.get('op') == '!=' and 'ACCEPT' in show(z), False) for c2, l, cn in guards)
+        con = any(isinstance(l, bool) and guard_implies(c2, l, is_constraint, True) for c2, l, cn in guards)
+        if not acc:
+            why.append('a match is returned without the parse having ACCEPTed')
+        if not con:
+            why.append('a match is returned without its text constraints having been checked')
+        # location = the counter
+        loc_ok = False
+        for x in walk_expr(n.stmt['e']):
+            if x.get('k') == 'init' and x.get('fields'):
+                first = strip_casts(x['fields'][0][1]) if isinstance(x['fields'][0], (list, tuple)) else None
+                if first is not None and first.get('d') == cv['d']:
+                    loc_ok = True
+            if x.get('k') == 'init' and x.get('elems'):
+                first = strip_casts(x['elems'][0])
+                if first is not None and first.get('d') == cv['d']:
+                    loc_ok = True
+        if not loc_ok:
+            unk.append('location of the returned match')
+    # leaving the loop early without a match
+    brk = [x for x in walk_stmts(L['body']) if x['k'] == 'break']
+    if brk:
+        why.append('the scan is abandoned at line %s before all start positions were tried' % brk[0]['loc'][0])
+    if why:
+        G.violation('detect: leftmost', '; '.join(dict.fromkeys(why)), where)
+    elif unk:
+        G.unknown('detect: leftmost', 'not recognised: ' + '; '.join(unk))
+    else:
+        G.ok('detect: leftmost', 'positions 0..size-1 ascending by 1, parsed from begin()+i, first ACCEPT && constraint returned with location i', where)
 
 
 # ============================================================================= C12
